@@ -64,6 +64,7 @@ var Mutants = map[string][]Mutant{
 		{"Paths.Settle ignores its rule", "path_intersection.go", `return bentleyOttmann\(ps, nil, opSettle, fillRule\)`, `return bentleyOttmann(ps, nil, opSettle, NonZero)`, "E9.wrapper"},
 	},
 	"C03": {
+		{"circular arcs collapse to the chord when its sagitta is within tolerance", "path_util.go", `(?s)(func flattenEllipticArc\(.*?\t\tr := rx\n)`, "${1}\t\tif chord := end.Sub(start).Length(); r-math.Sqrt(math.Max(0.0, r*r-chord*chord/4.0)) <= tolerance {\n\t\t\tq := &Path{}\n\t\t\tq.MoveTo(start.X, start.Y)\n\t\t\tq.LineTo(end.X, end.Y)\n\t\t\treturn q\n\t\t}\n", "E11.arc-flag-consulted"},
 		{"non-circular arcs flattened with the package default tolerance", "path_util.go", `arcToCube\(start, rx, ry, phi, large, sweep, end\)\.Flatten\(tolerance\)`, "arcToCube(start, rx, ry, phi, large, sweep, end).Flatten(Tolerance)", "E11.tolerance-threaded"},
 		{"control-point factor of the maximal piece angle", "path_util.go", `(?s)(func ellipseToCubicBeziers\(.*?\tdtheta := math\.Pi / 2\.0 // TODO[^\n]*\n\tn := int\(math\.Ceil\(math\.Abs\(theta1-theta0\) / dtheta\)\)\n)(\tdtheta = math\.Abs\(theta1-theta0\) / float64\(n\)[^\n]*\n)(\tkappa := [^\n]*\n)`, "${1}${3}${2}", "E11.factor-from-step"},
 		{"quadratic control-point factor of the maximal piece angle", "path_util.go", `(?s)(func ellipseToQuadraticBeziers\(.*?\tn := int\(math\.Ceil\(math\.Abs\(theta1-theta0\) / dtheta\)\)\n)(\tdtheta = math\.Abs\(theta1-theta0\) / float64\(n\)[^\n]*\n)(\tkappa := math\.Tan\(dtheta / 2\.0\)\n)`, "${1}${3}${2}", "E11.factor-from-step"},
@@ -94,6 +95,7 @@ var Mutants = map[string][]Mutant{
 		{"closed flag also set by MoveTo", "path_stroke.go", `\t\tcase MoveToCmd:\n\t\t\tend = Point\{p\.d\[i\+1\], p\.d\[i\+2\]\}\n\t\tcase LineToCmd:\n\t\t\tend = Point\{p\.d\[i\+1\], p\.d\[i\+2\]\}\n\t\t\tn := end`, "\t\tcase MoveToCmd:\n\t\t\tend = Point{p.d[i+1], p.d[i+2]}\n\t\t\tclosed = false\n\t\tcase LineToCmd:\n\t\t\tend = Point{p.d[i+1], p.d[i+2]}\n\t\t\tn := end", "E11.cap-join"},
 	},
 	"C05": {
+		{"short sub-paths skip the cut loop by the element length alone", "path.go", `(\t\tlength := ps\.Length\(\)\n)(\t\tfor pos\+d\[i\]\+Epsilon < length \{)`, "${1}\t\tif length < d[i0] {\n\t\t\tif i0%2 == 0 {\n\t\t\t\tq = q.Append(ps)\n\t\t\t}\n\t\t\tcontinue\n\t\t}\n${2}", "E11.dash-cover"},
 		{"negative offset wrapped as Mod(offset+sum, sum)", "path.go", `offset = math\.Mod\(offset, dTotal\) \+ dTotal`, "offset = math.Mod(offset+dTotal, dTotal)", "E11.dash-offset-range"},
 		{"ScaleDash multiplies the caller's pattern in place", "canvas.go", `(?s)\td2 := make\(\[\]float64, len\(d\)\)\n\tfor i := range d \{\n\t\td2\[i\] = d\[i\] \* scale\n\t\}\n\treturn offset \* scale, d2\n`, "\tfor i := range d {\n\t\td[i] *= scale\n\t}\n\treturn offset * scale, d\n", "E1.dash-input-pure"},
 		{"line case claims [T, T+dT) while the curves claim (T, T+dT]", "path.go", `(?s)(dT := end\.Sub\(start\)\.Length\(\)\n\t\t\t\t\tTcurve := T\n\t\t\t\t\t)for j < len\(ts\) && T < ts\[j\] && ts\[j\] <= T\+dT \{`, "${1}for j < len(ts) && T <= ts[j] && ts[j] < T+dT {", "E11.cut-interval"},
@@ -109,6 +111,7 @@ var Mutants = map[string][]Mutant{
 		{"arc cut relative to the arc start", "path.go", `ellipseSplit\(rx, ry, phi, cx, cy, startTheta, theta2, theta\)`, `ellipseSplit(rx, ry, phi, cx, cy, theta1, theta2, theta)`, "E11.cut-carried"},
 	},
 	"C06": {
+		{"second root re-mapped whenever the roots are ordered", "path_util.go", `(?s)\tsplit := false\n(.*?)\t\tsplit = true\n(.*?)\t\tif split \{\n\t\t\tt2 = \(t2 - t1\)`, "${1}${2}\t\tif t1 < t2 {\n\t\t\tt2 = (t2 - t1)", "E11.remap-iff-split"},
 		{"inflection crossing demands a vanishing second derivative (reverts fix 6b4ba7e)", "path_intersection_util.go", `if Equal\(A\.Dot\(deriv2\), 0\.0\) \{`, "if Equal(deriv2.X, 0.0) && Equal(deriv2.Y, 0.0) {", "E9.inflection-across-line"},
 		{"pending end-point hit of Crossings declared outside the sub-path loop", "path.go", `(?s)(\tboundary := false\n)(\tfor _, pi := range p\.Split\(\) \{\n\t\t// Count intersections of ray with path, see windings\n\t\tni := 0\n)\t\tvar prev \*Intersection\n`, "$1\tvar prev *Intersection\n$2", "E9.pending-per-subpath"},
 		{"quad tangency recognised for the parallel direction only", "path_intersection_util.go", `zs = zs\.add\(pos, s, root, dira, dirb, endpoint \|\| Equal\(A\.Dot\(deriv\), 0\.0\), false\)`, "zs = zs.add(pos, s, root, dira, dirb, endpoint || angleEqual(dira, deriv.Angle()), false)", "E9.tangent-both-ways"},
@@ -184,6 +187,7 @@ var Mutants = map[string][]Mutant{
 		{"Close retags one end only", "path.go", `\t\tp\.d\[len\(p\.d\)-1\] = CloseCmd\n\t\tp\.d\[len\(p\.d\)-cmdLen\(LineToCmd\)\] = CloseCmd\n`, "\t\tp.d[len(p.d)-1] = CloseCmd\n", "E2.retag"},
 	},
 	"C11": {
+		{"S reflects when the stored last command is a cubic", "path.go", `if prevCmd == 'C' \|\| prevCmd == 'c' \|\| prevCmd == 'S' \|\| prevCmd == 's' \{`, "if 0 < len(p.d) && p.d[len(p.d)-1] == CubeToCmd {", "E11.svg-smooth"},
 		{"Join hands the stored rotation (radians) to ArcTo (degrees)", "path.go", `p\.ArcTo\(d\[1\], d\[2\], d\[3\]\*180\.0/math\.Pi, large, sweep, d\[5\], d\[6\]\)`, "p.ArcTo(d[1], d[2], d[3], large, sweep, d[5], d[6])", "E8.units"},
 		{"ToSVG drops a MoveTo to the current pen position", "path.go", `(?s)(func \(p \*Path\) ToSVG\(\) string \{.*?\t\tcase MoveToCmd:\n)`, "${1}\t\t\tif 0 < i && Equal(x, p.d[i+1]) && Equal(y, p.d[i+2]) {\n\t\t\t\tbreak\n\t\t\t}\n", "E2.serialise-every-command"},
 		{"implicit lineto after m read as absolute", "path.go", `(?s)(p1 = p1\.Add\(p0\)\n\t\t\t\t)cmd = 'l'`, "${1}cmd = 'L'", "E11.implicit-command"},
@@ -227,6 +231,7 @@ var Mutants = map[string][]Mutant{
 		{"PS eofill outside its guard", "renderers/ps/ps.go", `r\.w\.Write\(\[\]byte\(" fill"\)\)\n\t\t\}\n\t\tif style\.HasStroke\(\) && !strokeUnsupported \{\n\t\t\tr\.w\.Write\(\[\]byte\(" grestore"\)\)`, "r.w.Write([]byte(\" eofill\"))\n\t\t}\n\t\tif style.HasStroke() && !strokeUnsupported {\n\t\t\tr.w.Write([]byte(\" grestore\"))", "E6.enum"},
 	},
 	"C13": {
+		{"gradient boundary appended before the function under a length guard", "renderers/pdf/writer.go", `(?s)\t\tfs = append\(fs, patternStopFunction\(stops\[i\], stops\[i\+1\]\)\)\n\t\tencode = append\(encode, 0, 1\)\n\t\tif i != 0 \{\n\t\t\tbounds = append\(bounds, stops\[i\]\.Offset\)\n\t\t\}\n`, "\t\tif 0 < len(fs) {\n\t\t\tbounds = append(bounds, stops[i].Offset)\n\t\t}\n\t\tfs = append(fs, patternStopFunction(stops[i], stops[i+1]))\n\t\tencode = append(encode, 0, 1)\n", "E5.stitching-arity"},
 		{"name escaping forgets the number sign", "renderers/pdf/writer.go", ` \|\| c == '#' \|\| strings\.IndexByte`, " || strings.IndexByte", "E5.name-escape"},
 		{"names written raw (reverts fix eb66fee)", "renderers/pdf/writer.go", `w\.write\("/%v", pdfEscapeName\(string\(v\)\)\)`, "w.write(\"/%v\", v)", "E5.name-escape"},
 		{"short Flate streams written raw", "renderers/pdf/writer.go", `(\t\t\tcase pdfFilterFlate:\n)`, "${1}\t\t\t\tif len(b) < 16 {\n\t\t\t\t\tbreak\n\t\t\t\t}\n", "E5.filter-applied"},
@@ -292,6 +297,7 @@ var Mutants = map[string][]Mutant{
 		{"setter writes the stack", "canvas.go", `func \(c \*Context\) SetStrokeWidth\(width float64\) \{\n`, "func (c *Context) SetStrokeWidth(width float64) {\n\tc.stack = nil\n", "E11.ctx-setter"},
 	},
 	"C16": {
+		{"vertical justify step multiplied by the line index", "text.go", `(?s)\t\tdy := 0\.0\n\t\tfor j := range t\.lines \{\n\t\t\tt\.lines\[j\]\.y \+= dy\n\t\t\tdy \+= ddy\n\t\t\}`, "\t\tfor j := range t.lines {\n\t\t\tt.lines[j].y += float64(j) * ddy\n\t\t}", "E4.unbounded-quotient-not-multiplied"},
 		{"unwrapped lines count the white space after a break (reverts fix 6632432)", "text.go", `if !lineStart \|\| item\.Type != text\.GlueType \{`, "if lineStart || !lineStart {", "E11.nowrap-width-skips-leading-glue"},
 		{"indent dropped from the items when the text starts with white space", "text/linebreak.go", `(?s)\titems = append\(items, Box\(indent\)\)\n\tif padStart\.Size != 0 \{\n\t\titems\[0\]\.Width \+= padStart\.Width\n\t\titems\[0\]\.Size \+= padStart\.Size\n\t\titems = append\(items, Penalty\(0, 0, false\)\)\n\t\}`, "\tif padStart.Size != 0 {\n\t\titems = append(items, padStart, Penalty(0, 0, false))\n\t} else {\n\t\titems = append(items, Box(indent))\n\t}", "E11.indent-on-every-path"},
 		{"lines aligned by the break width including trailing spaces", "text.go", `x \+= width - \(breaks\[j\]\.Width - eolWidth\)`, "x += width - breaks[j].Width", "E11.aligned-width-excludes-eol"},
